@@ -10,6 +10,7 @@ class ElementGlobal(Element):
     """Elements defined implicitly through global degrees-of-freedom."""
 
     V = None  # For caching inverse Vandermonde matrix
+    _V_mesh = None  # The mesh for which V was computed
     derivatives = 2  # By default, include first and second derivatives
     tensorial_basis = False
 
@@ -18,7 +19,7 @@ class ElementGlobal(Element):
         if tind is None:
             tind = np.arange(mapping.mesh.t.shape[1])
 
-        if self.V is None:
+        if self.V is None or self._V_mesh is not mapping.mesh:
             # initialize power basis
             self._pbasis_init(self.maxdeg,
                               self.dim,
@@ -26,6 +27,7 @@ class ElementGlobal(Element):
                               self.tensorial_basis)
             # construct Vandermonde matrix and invert it
             self.V = np.linalg.inv(self._eval_dofs(mapping.mesh))
+            self._V_mesh = mapping.mesh
 
         V = self.V[tind]
 
